@@ -297,6 +297,9 @@ def cr3(w):
         want = BV(64, [inner(fl).bits[i] if (allb >> i) & 1 else fb[i] for i in range(64)])
         w.ob('Cr3::write: frame address | flags, bit 63 clear', same(v, want), 'wrote %r expected %r' % (v, want), P + 'write')
     pc = I.sym_value(adt('instructions::tlb::Pcid'), 'pcid')
+    # the PCID writes below assume a Pcid is below 4096 (else it would spill into the frame address): its only constructor says so
+    from .c19 import pcid_codec
+    w.chk.guard('wrapper', 'Pcid::new', lambda: pcid_codec(w.chk, I, 'wrapper'))
     for fn_, top in (('write_pcid', 0), ('write_pcid_no_flush', 1)):
         r = w.single(P + fn_, w.run(P + fn_, [fr, pc]), 'Cr3::' + fn_, [('write', 'cr3')])
         if r:
